@@ -7,7 +7,10 @@ from typing import Callable
 
 from .core import Program, Report, finish
 from .rules import rcustom, rf, rg, rk, rl, rn, rs, rsmall, rt, ru
-from .rules.tables import TABLE
+from .rules.tables import TABLE as _HAND
+from .rules.tables_auto import AUTO
+
+TABLE = _HAND + AUTO
 
 ASSUME = [
     "no reflection (setattr/__dict__/monkey-patching) on value types",
